@@ -173,6 +173,16 @@ func dimsCmd(args []string) error {
 			}
 		}
 	}
+	// more than a MiB of segments ahead of the frame header: a profile in 18 full-size chunks, then SOF
+	{
+		var big []string
+		for q := 1; q <= 18; q++ {
+			big = append(big, fmt.Sprintf(`{"t":"ICC","seq":%d,"total":18,"pid":%d}`, q, 100+q))
+		}
+		if err := emit("jpeg", `[{"t":"OTHER","kind":"app1"},`+strings.Join(big, ",")+`,{"t":"OTHER","kind":"dqt"},{"t":"SOF","kind":2,"p":8,"h":301,"w":402,"nc":3},{"t":"SOS"}]`); err != nil {
+			return err
+		}
+	}
 	// C06: profile sizes and chunk counts beyond the bounded grammar - 255 chunks in a seeded
 	// order among other segments, full-size (65519-byte) chunks, multi-MiB profiles
 	if *icc {
